@@ -28,6 +28,8 @@ EXPLANATION = (
 
 
 def _run(ctx):
+    from .common import array_hazard_sweep
+    array_hazard_sweep(ctx, "R5", ("nsf",), "a vector call then disagrees with the scalar calls, and energy= with the equivalent wavelength=, once the caller's array has been changed")
     lam = sp.Symbol("lam", positive=True)
     rho = sp.Symbol("rho", positive=True)
     w = neutron_world(ctx)
